@@ -11,9 +11,10 @@ EGS = {
     "G2": ((0x1111, 1, 1), 2, ("2001:db8::100", 41002, 0, 0), hdr.L4Protocols.UDP, "l2"),
     "G3": ((0x2222, 1, 2), 1, ("192.0.2.100", 41003), hdr.L4Protocols.TCP, "l3"),
     "G4": ((0x3333, 7, 3), 5, ("2001:db8::100", 41004, 0, 0), hdr.L4Protocols.TCP, "l4"),
+    "G5": ((0x1111, 1, 1), 1, ("192.0.2.100", 41003), hdr.L4Protocols.TCP, "l3"),      # the ids of G1, another local endpoint
 }
 SRVS = ["a1", "a2", "a3"]
-BASE = ["G1", "G2", "G3", "G4"]      # the eventgroups of the generated histories (scale scenarios add more)
+BASE = ["G1", "G2", "G3", "G4", "G5"]      # the eventgroups of the generated histories (scale scenarios add more)
 VARIANTS = {"R": dict(subTTL=6, refresh=2), "S": dict(subTTL=12, refresh=4), "F": dict(subTTL=FOREVER, refresh=0)}
 
 
@@ -25,12 +26,13 @@ def eg_obj(g):
 
 def name_entries(ev):
     """tx Subscribe entries -> eventgroup names (by ids + eventgroup id)"""
-    rev = {(v[0], v[1]): k for k, v in EGS.items()}
+    rev = {(v[0], v[1], v[4]): k for k, v in EGS.items()}
     for e in ev:
         if e.get("op") == "tx":
             for en in e["es"]:
                 if en["ty"] == "sub":
-                    en["g"] = rev.get((tuple(en["ids"]), en["eg"]), "G?")
+                    eps = [o for o in en["opts"] if o.startswith("l")]
+                    en["g"] = rev.get((tuple(en["ids"]), en["eg"], eps[0] if eps else ""), "G?")
                     en["eps"] = [o for o in en["opts"]]
     return ev
 
